@@ -11,13 +11,13 @@ groups = {"renders": ["injectify_spec", "transpose_spec", "injectifyTranspose_sp
           "rowk": ["renderRows_spec", "sortSegments_spec"],
           "colk": ["renderCols_spec"],
           "kernels": ["kernel_render_eq", "kernel_render2_eq"],
-          "api": ["degree_spec", "permuteIndices_spec", "clone_spec", "numDistinct_spec", "greedy_colors_contiguous",
+          "api": ["degree_spec", "permuteIndices_spec", "permuteIndices_relabels", "clone_spec", "numDistinct_spec", "greedy_colors_contiguous",
                   "compositeIterator_spec", "compositeIterator_empty_head", "compositeIterator_fixed_spec", "degree_is_max"],
           "dyn": ["dyn_insert_spec", "dyn_erase_spec", "dyn_ofAdjactor_spec", "dyn_ofAdjactor_transpose_spec",
                   "dyn_render_spec", "dyn_compose_spec"],
           "layers": ["cm_layers_are_bfs_levels"],
           "csr": ["graph_csr_permute_consistent"],
-          "perms2": ["inverse_inverse", "concat_inverse", "self_concat", "random_ctor_bijection", "graph_permuted_spec"]}
+          "perms2": ["inverse_inverse", "concat_inverse", "self_concat", "self_concat_aliased", "random_ctor_bijection", "graph_permuted_spec"]}
 have = {}
 for k, names in groups.items():
     p = ROOT + "/lean/FeatModel/Lemmas/C19_%s.lean" % k
